@@ -494,3 +494,81 @@ Proof.
       apply all_ascii_digit_rstrip. unfold digits4. cbn [forallb]. rewrite !mod10_digit. reflexivity.
     + cbn [app]. apply lstrip_cons_nonspace. exact Sa.
 Qed.
+
+(* ---------------- the whole LIST line: server formatter, then client parser ---------------- *)
+Definition plain_entry (st : stats) (name : text) : Prop :=
+  (filetype_char (st_mode st) = 45 \/ filetype_char (st_mode st) = 100) /\
+  no_ST (st_mode st) = true /\ 0 <= st_nlink st /\ 0 <= st_size st /\ strip_fixed name.
+
+Definition list_info (st : stats) (modify : text) : linfo :=
+  mklinfo (type_of_char (filetype_char (st_mode st))) (mode_view (st_mode st))
+          (str_of_Z (st_nlink st)) t_none t_none (str_of_Z (st_size st)) modify None.
+
+Theorem list_line_recent half two off now now' st name :
+  consts_ok half two = true ->
+  now <= now' <= now + HOUR ->
+  now - half_year_spec + DAY < st_mtime st <= now ->
+  plain_entry st name ->
+  let tm := civil_of_epoch (st_mtime st + off) in
+  1000 <= yr tm -> yr (client_now off now') <= 9999 ->
+  parse_list_line_unix half two (client_now off now') (build_list_string half off now st name)
+  = Ok (name, list_info st (format_date_time tm)).
+Proof.
+  intros C Hn Hm (Hty & HST & Hnl & Hsz & Hname) tm HY HY'.
+  unfold build_list_string, list_info.
+  assert (C' := C). unfold consts_ok in C'. apply andb_true_iff in C' as [C' _].
+  apply andb_true_iff in C' as [C1 _]. apply Z.leb_le in C1.
+  destruct (epoch_of_civil_of_epoch (st_mtime st + off)) as [_ Vm]. fold tm in Vm.
+  destruct (hm_text_props tm Vm) as [L12 SF].
+  apply list_roundtrip; try assumption.
+  - rewrite (build_recent half off _ now C1 Hm). exact L12.
+  - rewrite (build_recent half off _ now C1 Hm). exact SF.
+  - apply ls_date_recent_text; assumption.
+Qed.
+
+Theorem list_line_old_or_future half two off now nowdt st name :
+  half <= half_year_spec ->
+  st_mtime st <= now - half_year_spec \/ now < st_mtime st ->
+  plain_entry st name ->
+  let tm := civil_of_epoch (st_mtime st + off) in
+  1000 <= yr tm <= 9999 ->
+  parse_list_line_unix half two nowdt (build_list_string half off now st name)
+  = Ok (name, list_info st (fmt_14 (day_floor tm))).
+Proof.
+  intros C Hm (Hty & HST & Hnl & Hsz & Hname) tm HY.
+  unfold build_list_string, list_info.
+  destruct (epoch_of_civil_of_epoch (st_mtime st + off)) as [_ Vm]. fold tm in Vm.
+  destruct (y_text_props tm Vm HY) as [L12 SF].
+  apply list_roundtrip; try assumption.
+  - rewrite (build_old_or_future half off _ now C Hm). exact L12.
+  - rewrite (build_old_or_future half off _ now C Hm). exact SF.
+  - apply ls_date_old_or_future_text; assumption.
+Qed.
+
+(* F13b: a mode with 'S' or 'T' makes the client's own parser reject the server's line *)
+Theorem list_line_ST_rejected half two nowdt st ds name :
+  no_ST (st_mode st) = false -> name <> [] -> rstrip name = name ->
+  parse_list_line_unix half two nowdt (build_list_string_with st ds name) = Err E_VALUE.
+Proof.
+  intros HST Nn Nr. destruct st as [size ct mt nlink mode]. cbn [st_mode] in *.
+  rewrite list_line_shape. unfold parse_list_line_unix.
+  assert (R : forall tl, rstrip (filetype_char mode :: perm_chars mode ++ SP :: tl ++ SP :: name)
+                         = filetype_char mode :: perm_chars mode ++ SP :: tl ++ SP :: name).
+  { intro tl.
+    replace (filetype_char mode :: perm_chars mode ++ SP :: tl ++ SP :: name)
+      with ((filetype_char mode :: perm_chars mode ++ SP :: tl ++ [SP]) ++ name).
+    - apply rstrip_app_nonempty; assumption.
+    - cbn [app]. f_equal. repeat (rewrite <- ?app_assoc; cbn [app]). reflexivity. }
+  specialize (R (str_of_Z nlink ++ SP :: t_none ++ SP :: t_none ++ SP :: str_of_Z size ++ SP :: ds)).
+  repeat (rewrite <- ?app_assoc in R; cbn [app] in R). rewrite R. cbv beta iota zeta.
+  rewrite (slice_perm _ _ _ (perm_chars_length mode)).
+  rewrite (parse_perm_chars_ST mode HST). reflexivity.
+Qed.
+
+(* F13a: leading whitespace of a name does not survive the LIST line *)
+Lemma list_leading_space_lost :
+  let st := mkstats 5 0 1717243100 1 33188 in
+  parse_list_line_unix half_year_spec 63115200 (civil_of_epoch 1717243200)
+    (build_list_string half_year_spec 0 1717243200 st [32; 97])
+  = Ok ([97], list_info st [50; 48; 50; 52; 48; 54; 48; 49; 49; 49; 53; 56; 48; 48]).
+Proof. vm_compute. reflexivity. Qed.
